@@ -31,6 +31,9 @@ var stressChild = flag.Bool("stress-child", false, "internal: run only the stres
 
 const childTimeout = 90 * time.Minute
 
+// replayAttempts bounds how often a replayed stress round is repeated.
+const replayAttempts = 400
+
 func runStressInChild(r *hx.Run) {
 	dir := filepath.Join(r.OutDir, "stress")
 	cmd := exec.Command(os.Args[0], "--seed", strconv.FormatUint(r.Rng.U64(), 10), "--tier", r.Tier, "--out", dir, "--stress-child")
@@ -75,11 +78,27 @@ func runStressInChild(r *hx.Run) {
 
 		return
 	}
-	// merge the child's streams and statistics
+	// merge the child's streams, its findings (attached to the case they belong to) and its statistics
+	byCase := map[int][]hx.Finding{}
+	var fds []hx.Finding
+	if b, e := os.ReadFile(filepath.Join(dir, "oracle.json")); e == nil && json.Unmarshal(b, &fds) == nil {
+		for _, fd := range fds {
+			byCase[fd.Case] = append(byCase[fd.Case], fd)
+		}
+	}
 	ops := readLines(filepath.Join(dir, "ops.txt"))
 	impl := readLines(filepath.Join(dir, "impl.txt"))
+	childCase := 0
+	flush := func() {
+		for _, fd := range byCase[childCase] {
+			r.Fail(fd.Oracle, fd.Detail, fd.Signature)
+		}
+		delete(byCase, childCase)
+	}
 	for i := 0; i < len(ops) && i < len(impl); i++ {
 		if strings.HasPrefix(ops[i], "#") {
+			flush()
+			childCase++
 			f := strings.Fields(ops[i])
 			sub, _ := strconv.ParseUint(f[len(f)-1], 10, 64)
 			r.Case(sub)
@@ -87,6 +106,12 @@ func runStressInChild(r *hx.Run) {
 			continue
 		}
 		r.Line(ops[i], impl[i])
+	}
+	flush()
+	for _, rest := range byCase {
+		for _, fd := range rest {
+			r.Fail(fd.Oracle, fd.Detail, fd.Signature)
+		}
 	}
 	var st struct {
 		Nontrivial int            `json:"distinct_nontrivial"`
@@ -102,12 +127,6 @@ func runStressInChild(r *hx.Run) {
 		}
 		for _, s := range st.Samples {
 			r.Sample(s)
-		}
-	}
-	var fds []hx.Finding
-	if b, e := os.ReadFile(filepath.Join(dir, "oracle.json")); e == nil && json.Unmarshal(b, &fds) == nil {
-		for _, fd := range fds {
-			r.Fail(fd.Oracle, fd.Detail, fd.Signature)
 		}
 	}
 	os.RemoveAll(dir)
@@ -149,15 +168,19 @@ func runSeqCase(r *hx.Run, sub uint64, ops []string) {
 	r.Case(sub)
 	w := &seqWorld{}
 	delivered, subs := 0, 0
+	var rerun []string
 	for i := 0; i < len(ops); i++ {
 		op := ops[i]
 		f := strings.Fields(op)
 		if len(f) > 0 && f[0] == "stress" {
-			// a stress request inside a replay file: re-run it (its recorded log lines are skipped)
-			runStressLines(r, op)
+			// a stress request inside a replay file: the log lines recorded after it are the evidence of the run
+			// that wrote the file; a replay is about the tree as it is now, so the round is run again (same seed and
+			// neighbouring seeds, a fresh schedule each time) until the property fails or the attempts are used up
+			r.Line(op, "ok")
 			for i+1 < len(ops) && isLogLine(ops[i+1]) {
 				i++
 			}
+			rerun = append(rerun, op)
 
 			continue
 		}
@@ -186,6 +209,21 @@ func runSeqCase(r *hx.Run, sub uint64, ops []string) {
 		r.Nontrivial(string(h[:8]))
 	}
 	r.Sample(r.CaseLines())
+	for _, op := range rerun {
+		f := strings.Fields(op)
+		if len(f) < 3 {
+			continue
+		}
+		seed, _ := strconv.ParseUint(f[2], 10, 64)
+		for attempt := uint64(0); attempt < replayAttempts; attempt++ {
+			before := len(r.Findings)
+			r.Case(seed + attempt)
+			runStressLines(r, fmt.Sprintf("stress %s %d", f[1], seed+attempt))
+			if len(r.Findings) > before {
+				break
+			}
+		}
+	}
 }
 
 var seqCorpus = [][]string{
